@@ -30,6 +30,8 @@ that fact on the parsed trees and are skipped when it does not hold.
 
   if not C: A else: B               ==>          if C: B else: A    (only when both arms are present)
 
+  class Code(IntEnum): A = 1        ==>          Code.A -> 1, Code.A.name -> "A", int(Code.A) -> 1, map(int, Code) -> (1, ..)   (named ints)
+
   with ExitStack() as s: A; s.callback(f, x); B  ==>     A; try: B finally: f(x)
 
   append = self.stack.append; ...; append(x)     ==>     self.stack.append(x)        (also `f = partial(g, a); f(b)` ==> g(a, b))
@@ -265,6 +267,16 @@ class Normaliser:
         self.sigs = Signatures(trees)
         self.nonnone = nonnone_containers(trees)
         self.tuple_containers = tuple_containers(trees)
+        # names bound exactly once (class or module level) to a tuple of plain names, never re-bound as attributes: exception families
+        cnt: dict[str, list[ast.AST]] = {}
+        for t in trees:
+            for x in ast.walk(t):
+                if isinstance(x, ast.Assign) and len(x.targets) == 1 and isinstance(x.targets[0], ast.Name):
+                    cnt.setdefault(x.targets[0].id, []).append(x.value)
+        self.exc_tuples = {k: v[0] for k, v in cnt.items() if len(v) == 1 and isinstance(v[0], ast.Tuple) and v[0].elts
+                           and all(isinstance(e, (ast.Name, ast.Attribute)) for e in v[0].elts) and k not in self.mutable_attrs
+                           and any(ast.unparse(e).split(".")[-1].endswith(("Error", "Exception", "Interrupt", "Exit", "Terminate", "error", "timeout")) for e in v[0].elts)}
+        self.subclassed = {ast.unparse(b).split(".")[-1] for t in trees for c in ast.walk(t) if isinstance(c, ast.ClassDef) for b in c.bases}
         # attribute names that some function other than an __init__ (or a class body) assigns: `x.attr` may change under a reader
         self.mutable_attrs: set[str] = set()
         for t in trees:
@@ -829,6 +841,16 @@ class Normaliser:
         if isinstance(st, ast.ClassDef):
             saved, self.in_function = self.in_function, 0
             try:
+                if st.name not in self.subclassed:
+                    # @classmethod def make(cls, ..): return cls(..)   ==>   return ClassName(..)     (the class has no subclass in the package)
+                    for m in st.body:
+                        if isinstance(m, ast.FunctionDef) and any(ast.unparse(d) == "classmethod" for d in m.decorator_list) and m.args.args:
+                            c0 = m.args.args[0].arg
+                            if not any(isinstance(x, ast.Name) and x.id == c0 and isinstance(x.ctx, ast.Store) for x in ast.walk(m)):
+                                for x in ast.walk(m):
+                                    if isinstance(x, ast.Call) and isinstance(x.func, ast.Name) and x.func.id == c0:
+                                        x.func = ast.copy_location(ast.Name(id=st.name, ctx=ast.Load()), x.func)
+                                        self.hit("cls()->ClassName()")
                 return self.stmt_(st)
             finally:
                 self.in_function = saved
@@ -842,6 +864,12 @@ class Normaliser:
                 setattr(st, fld, self.block(v))
         for h in getattr(st, "handlers", []) or []:
             h.body = self.block(h.body)
+            # except self._STOP:  with the class/module constant _STOP = (A, B)   ==>   except (A, B):
+            t_ = h.type
+            nm_ = t_.attr if isinstance(t_, ast.Attribute) and isinstance(t_.value, ast.Name) and t_.value.id in ("self", "cls") else (t_.id if isinstance(t_, ast.Name) else None)
+            if nm_ is not None and nm_ in self.exc_tuples:
+                h.type = ast.fix_missing_locations(ast.copy_location(copy.deepcopy(self.exc_tuples[nm_]), t_))
+                self.hit("named-exception-tuple-inlined")
         if isinstance(st, ast.Match):
             for c in st.cases:
                 c.body = self.block(c.body)
@@ -1124,8 +1152,124 @@ def instantiate_factories(trees: list[ast.Module], n: Normaliser) -> None:
                     n.hit("closure-factory-instantiated")
 
 
+def desugar_int_enums(trees: list[ast.Module], n: Normaliser) -> None:
+    """class Code(enum.IntEnum): A = 1; B = 2     -- an IntEnum with literal int members is a family of named ints:
+       Code.A -> 1;  Code.A.name -> "A";  Code.A.value / int(Code.A) -> 1;  X = Code.A; X.name -> "A";
+       map(int, Code) / list(Code) / tuple(Code) -> (1, 2);  e.value / int(e) for a parameter annotated `e: Code` -> e
+    (values compare, hash and index dicts like the ints they are; execnet never serialises the members themselves)"""
+    enums: dict[str, list[tuple[str, int]]] = {}
+    for t in trees:
+        for c in ast.walk(t):
+            if isinstance(c, ast.ClassDef) and any(ast.unparse(b).split(".")[-1] in ("IntEnum", "IntFlag") for b in c.bases):
+                members = []
+                ok = True
+                for st in c.body:
+                    if isinstance(st, ast.Assign) and len(st.targets) == 1 and isinstance(st.targets[0], ast.Name):
+                        if isinstance(st.value, ast.Constant) and isinstance(st.value.value, int) and not isinstance(st.value.value, bool):
+                            members.append((st.targets[0].id, st.value.value))
+                        elif not st.targets[0].id.startswith("_"):
+                            ok = False
+                    elif isinstance(st, (ast.FunctionDef, ast.AsyncFunctionDef)) and st.name in ("__new__", "_missing_", "__int__", "__eq__", "__hash__", "_generate_next_value_"):
+                        ok = False
+                if ok and members:
+                    enums[c.name] = members
+    if not enums:
+        return
+    # names bound once (class or module level) directly to a member:  X = Code.A
+    alias: dict[str, tuple[str, str]] = {}
+    counts: dict[str, int] = {}
+    in_enum = {id(x) for t in trees for c in ast.walk(t) if isinstance(c, ast.ClassDef) and c.name in enums for x in c.body}
+    for t in trees:
+        for st in ast.walk(t):
+            if id(st) in in_enum:
+                continue
+            if isinstance(st, ast.Assign) and len(st.targets) == 1 and isinstance(st.targets[0], ast.Name):
+                counts[st.targets[0].id] = counts.get(st.targets[0].id, 0) + 1
+                v = st.value
+                if isinstance(v, ast.Attribute) and isinstance(v.value, ast.Name) and v.value.id in enums and v.attr in dict(enums[v.value.id]):
+                    alias[st.targets[0].id] = (v.value.id, v.attr)
+    alias = {k: v for k, v in alias.items() if counts.get(k) == 1}
+
+    def member_of(e: ast.AST):
+        if isinstance(e, ast.Attribute) and isinstance(e.value, ast.Name) and e.value.id in enums and e.attr in dict(enums[e.value.id]):
+            return e.value.id, e.attr
+        if isinstance(e, ast.Name) and e.id in alias and isinstance(e.ctx, ast.Load):
+            return alias[e.id]
+        if isinstance(e, ast.Attribute) and isinstance(e.value, ast.Name) and e.attr in alias and e.value.id[:1].isupper():
+            return alias[e.attr]          # Message.STATUS where the class attribute STATUS = Code.STATUS
+        return None
+
+    class _E(ast.NodeTransformer):
+        def __init__(self_) -> None:  # noqa: N805
+            self_.typed: list[dict[str, str]] = [{}]
+
+        def visit_FunctionDef(self_, node):  # noqa: N805
+            sc = {}
+            for a in node.args.posonlyargs + node.args.args + node.args.kwonlyargs:
+                if a.annotation is not None and ast.unparse(a.annotation).strip("'\"") in enums:
+                    sc[a.arg] = ast.unparse(a.annotation).strip("'\"")
+            self_.typed.append(sc)
+            self_.generic_visit(node)
+            self_.typed.pop()
+            return node
+        visit_AsyncFunctionDef = visit_FunctionDef
+
+        def visit_Attribute(self_, node):  # noqa: N805
+            # Code.A.name / X.name / e.value
+            if node.attr in ("name", "value", "_value_", "_name_") and isinstance(node.ctx, ast.Load):
+                m = member_of(node.value)
+                if m is not None:
+                    n.hit("int-enum-desugared")
+                    val = m[1] if node.attr in ("name", "_name_") else dict(enums[m[0]])[m[1]]
+                    return ast.copy_location(ast.Constant(value=val), node)
+                if node.attr in ("value", "_value_") and isinstance(node.value, ast.Name) and node.value.id in self_.typed[-1]:
+                    n.hit("int-enum-desugared")
+                    return node.value
+            self_.generic_visit(node)
+            if isinstance(node.ctx, ast.Load) and isinstance(node.value, ast.Name) and node.value.id in enums and node.attr in dict(enums[node.value.id]):
+                n.hit("int-enum-desugared")
+                return ast.copy_location(ast.Constant(value=dict(enums[node.value.id])[node.attr]), node)
+            return node
+
+        def visit_Call(self_, node):  # noqa: N805
+            self_.generic_visit(node)
+            f = node.func
+            if isinstance(f, ast.Name) and f.id == "int" and len(node.args) == 1 and not node.keywords:
+                a = node.args[0]
+                if isinstance(a, ast.Name) and a.id in self_.typed[-1]:
+                    return a
+            if isinstance(f, ast.Name) and f.id in ("list", "tuple", "sorted") and len(node.args) == 1 and isinstance(node.args[0], ast.Name) and node.args[0].id in enums:
+                n.hit("int-enum-desugared")
+                return ast.copy_location(ast.Tuple(elts=[ast.Constant(value=v) for (_k, v) in enums[node.args[0].id]], ctx=ast.Load()), node)
+            if isinstance(f, ast.Name) and f.id == "map" and len(node.args) == 2 and isinstance(node.args[0], ast.Name) and node.args[0].id == "int" \
+                    and isinstance(node.args[1], ast.Name) and node.args[1].id in enums:
+                n.hit("int-enum-desugared")
+                return ast.copy_location(ast.Tuple(elts=[ast.Constant(value=v) for (_k, v) in enums[node.args[1].id]], ctx=ast.Load()), node)
+            return node
+    for t in trees:
+        _E().visit(t)
+        # a, b = (1, 2)  ==>  a = 1; b = 2   (so that the names fold like ordinary constants)
+        for parent in ast.walk(t):
+            body = getattr(parent, "body", None)
+            if not isinstance(body, list):
+                continue
+            out = []
+            for st in body:
+                if isinstance(st, ast.Assign) and len(st.targets) == 1 and isinstance(st.targets[0], ast.Tuple) and isinstance(st.value, ast.Tuple) \
+                        and len(st.targets[0].elts) == len(st.value.elts) and all(isinstance(x, ast.Name) for x in st.targets[0].elts) \
+                        and all(isinstance(x, ast.Constant) for x in st.value.elts):
+                    for tg, v in zip(st.targets[0].elts, st.value.elts):
+                        out.append(ast.fix_missing_locations(ast.copy_location(ast.Assign(targets=[ast.Name(id=tg.id, ctx=ast.Store())], value=v), st)))
+                    n.hit("literal-tuple-unpack-split")
+                else:
+                    out.append(st)
+            parent.body = out
+        ast.fix_missing_locations(t)
+
+
 def normalise_idioms(trees: list[ast.Module]) -> dict[str, int]:
     n = Normaliser(trees)
+    desugar_int_enums(trees, n)
     instantiate_factories(trees, n)
     for t in trees:
         t.body = n.block(t.body)
